@@ -62,6 +62,10 @@ b("C02-b8", "C02", PACK, "        while delta_base:\n            delta_base -= 1
 b("C02-b9", "C02", PACK, "                except KeyError:\n                    type_num = REF_DELTA\n                    assert isinstance(unpacked.delta_base, bytes)\n",
   "                except KeyError:\n                    type_num = OFS_DELTA\n                    assert isinstance(unpacked.delta_base, bytes)\n", "R02.5")
 n("C02-n2", "C02", PACK, "    type_num = (raw[0] >> 4) & 0x07\n    size = raw[0] & 0x0F\n", "    type_num = (raw[0] >> 4) & 7\n    size = raw[0] & 15\n")
+b("C02-b10", "C02", PACK, "        unused = decomp_obj.unused_data\n        if unused:\n            left = len(unused)\n            if crc32 is not None:\n",
+  "        unused = decomp_obj.unused_data\n        if decomp_obj.eof:\n            left = len(unused)\n            if crc32 is not None:\n", "R02.6")
+n("C02-n3", "C02", PACK, "        unused = decomp_obj.unused_data\n        if unused:\n            left = len(unused)\n            if crc32 is not None:\n",
+  "        unused = decomp_obj.unused_data\n        if len(unused) > 0:\n            left = len(unused)\n            if crc32 is not None:\n")
 n("C02-n1", "C02", PACK, "        checksum_size = self.hash_size\n        return bytes(self._contents[-checksum_size:])\n",
   "        checksum_size = self.hash_size\n        stored = bytes(self._contents[-checksum_size:])\n        return stored\n")
 
